@@ -311,6 +311,14 @@ func init() {
 					}
 				})
 			})
+			// more distinct import paths than one hexadecimal digit numbers (both modes)
+			for mi, cfg := range manyImportsCfgs() {
+				for stub := 0; stub < 2; stub++ {
+					mi, cfg, stub := mi, cfg, stub
+					id := fmt.Sprintf("many-imports/%d/stub=%d", mi, stub)
+					w.Case(id, func(c *C) { evalCfg(c, id, cfg, []File{{"c.yaml", cfg.YAML()}}, false, stub == 1) })
+				}
+			}
 			// literals x positions x stub
 			place := func(cfg *Cfg, pos string, v any) {
 				s := Service{Name: "sut", Constructor: P("pk.New")}
